@@ -1,7 +1,7 @@
 """C14 - f_and / f_or are `and` / `or` folds over the order in which inputs finish."""
 import itertools
 import json
-from concurrent.futures import Future
+from concurrent.futures import CancelledError, Future
 
 from harness import runner
 from harness.env import SpyFuture
@@ -48,7 +48,9 @@ def gen(rng, tier):
     for i in range(n):
         ins.append({"end": rng.choice(["truthy", "truthy", "falsy", "falsy", "exc", "cancel", "never"]),
                     "v": rng.randrange(6), "at": rng.choice([None, 0, 0, 0.05, 0.1]), "by": rng.randrange(3),
-                    "wrap": rng.choice([None, None, None, "lib", "nocancel"])})
+                    "wrap": rng.choice([None, None, None, "lib", "nocancel"]),
+                    # an input that FAILED WITH a CancelledError instance is failed, not cancelled
+                    "cerr": rng.random() < 0.15})
     spec = {"op": op, "ins": ins, "dup": (rng.randrange(n), rng.randrange(n)) if n >= 2 and rng.random() < 0.2 else None,
             "cancel_at": rng.choice([None, None, None, 0, 0.05]), "settle": 5.0}
     spec["sim"] = runner.draw_sim_cfg(rng, est=300)
@@ -70,7 +72,7 @@ def run(spec, env):
         elif inp["end"] == "falsy":
             results[i] = make_value(False, inp["v"], i)
         elif inp["end"] == "exc":
-            results[i] = env.exc(("in", i))
+            results[i] = CancelledError() if inp.get("cerr") else env.exc(("in", i))
     env.objs["results"] = results
 
     def complete(i):
